@@ -4,7 +4,7 @@
   every period, every finite stream, every prefix; its running mean is the window mean and its
   `m2` accumulator is the (non-negative) sum of squared deviations, so the clamp never fires.
 -/
-import TaRs.Lemmas.Core.StandardDeviation
+import TaRs.Lemmas.StandardDeviation
 import TaRs.Lemmas.Ring
 import TaRs.Lemmas.XLemmas
 import TaRs.Lemmas.Machine
@@ -186,29 +186,30 @@ theorem step {n : Nat} {s : StandardDeviation (X K)} {h : List K} (i : Inv n s h
   refine ⟨{ period := p, index := if ix + 1 < p then ix + 1 else 0, count := if c < p then c + 1 else c,
             m := X.fin (Spec.mean (lastN p (h ++ [x]))), m2 := X.fin (ssq (lastN p (h ++ [x]))),
             deque := d.setIfInBounds ix (X.fin x) }, ?_, ⟨rfl, hsmall, ?_, rfl, rfl⟩⟩
-  · unfold next
-    simp (disch := omega) only [index_eq, setIndex_eq, uadd_eq]
-    by_cases hl : h.length < p
+  · by_cases hl : h.length < p
     · -- growing phase
       obtain ⟨w0, w1⟩ := lastN_grow p h x hl
       have hc : c = h.length := by omega
       subst hc
+      have hold : d[ix]? = some (X.fin (0 : K)) := by simpa [hl] using hcur
       have hk1 : ((h.length : K) + 1) ≠ 0 := by positivity
       have e1 := mean_append h x
       have e2 := ssq_append h x
       rw [w0] at hsm hsq
       rw [w1] at hnn ⊢
+      rw [next_eq _ _ _ (inv_wf i) hold]
       by_cases c1 : ix + 1 < p <;>
-        simp (disch := omega) [c1, hl, hsm, hsq, X.div_fin _ _ hk1, ← e1, ← e2, hnn, var_eq_ssq]
+        simp (disch := omega) [nextM, nextM2, nextM2Raw, c1, hl, hsm, hsq, X.div_fin _ _ hk1,
+          ← e1, ← e2, hnn, var_eq_ssq]
     · -- sliding phase
       have hge : p ≤ h.length := by omega
       obtain ⟨o, t, w0, wo, w1, wl⟩ := lastN_slide p hn h x hge
       have hc : c = p := by omega
       subst hc
-      have hold : d[ix]'hix = X.fin o := by
+      have hold : d[ix]? = some (X.fin o) := by
         have e := hcur
-        rw [Array.getElem?_eq_getElem hix, if_neg hl, List.getElem?_map, wo] at e
-        exact Option.some.inj e
+        rw [if_neg hl, List.getElem?_map, wo] at e
+        exact e
       have hk : ((c : K)) ≠ 0 := by
         have : (0 : K) < (c : K) := by exact_mod_cast hn
         exact ne_of_gt this
@@ -220,8 +221,10 @@ theorem step {n : Nat} {s : StandardDeviation (X K)} {h : List K} (i : Inv n s h
       have hlen : (t.length : K) + 1 = (c : K) := by
         have : t.length + 1 = c := by simpa using wl
         exact_mod_cast this
+      rw [next_eq _ _ _ (inv_wf i) hold]
       by_cases c1 : ix + 1 < c <;>
-        simp (disch := omega) [c1, hold, hsm, hsq, X.div_fin _ _ hk, ← e1, ← e2, hnn, var_eq_ssq, hlen]
+        simp (disch := omega) [nextM, nextM2, nextM2Raw, c1, hsm, hsq, X.div_fin _ _ hk,
+          ← e1, ← e2, hnn, var_eq_ssq, hlen]
   · simpa using hpush
 
 /-- the same step with the square root evaluated on the exact field (`0 ≤ var`, so `X.sqrt`
